@@ -7,6 +7,7 @@ import (
 	"encoding/json"
 	"fmt"
 	"math/big"
+	"net/http"
 	"net/http/httptest"
 	"net/url"
 	"strings"
@@ -69,13 +70,18 @@ func collect(rec *recdb.Recorder) []string {
 
 // storeRunner: calls one store method with a filter built from JSON.
 func storeRunner(method string, mkFilter func(v string) interface{}, pit, volumes, later bool) sqlRun {
+	var st *ledgerstore.Store
+	var rec *recdb.Recorder
 	return func(v string) ([]string, bool) {
 		raw, _ := json.Marshal(mkFilter(v))
 		qb, err := query.ParseJSON(string(raw))
 		if err != nil {
 			return nil, true
 		}
-		st, rec := storeh.NewRecordingStore("b1", "l1")
+		if st == nil {
+			st, rec = storeh.NewRecordingStore("b1", "l1")
+		}
+		_ = rec.Take()
 		ctx := context.Background()
 		var pitT *ledger.Time
 		if pit {
@@ -135,17 +141,26 @@ func storeRunner(method string, mkFilter func(v string) interface{}, pit, volume
 
 // httpRunner: sends one HTTP request to the real router; list methods of the backend run the real store on a recorder.
 func httpRunner(mkReq func(v string) (method, target, body string)) sqlRun {
+	// one store + router per case (a case is worked on by one goroutine at a time): building them per value made the
+	// thorough tier allocate tens of GB of short-lived routers
+	var rec *recdb.Recorder
+	var router http.Handler
 	return func(v string) ([]string, bool) {
-		st, rec := storeh.NewRecordingStore("b1", "l1")
-		b := recbackend.New("l1")
-		b.R = recbackend.Reads{
-			GetAccountsWithVolumes: st.GetAccountsWithVolumes,
-			CountAccounts:          st.CountAccounts,
-			GetAggregatedBalances:  st.GetAggregatedBalances,
-			GetLogs:                st.GetLogs,
-			CountTransactions:      st.CountTransactions,
-			GetTransactions:        st.GetTransactions,
+		if router == nil {
+			var st *ledgerstore.Store
+			st, rec = storeh.NewRecordingStore("b1", "l1")
+			b := recbackend.New("l1")
+			b.R = recbackend.Reads{
+				GetAccountsWithVolumes: st.GetAccountsWithVolumes,
+				CountAccounts:          st.CountAccounts,
+				GetAggregatedBalances:  st.GetAggregatedBalances,
+				GetLogs:                st.GetLogs,
+				CountTransactions:      st.CountTransactions,
+				GetTransactions:        st.GetTransactions,
+			}
+			router = newRouter(b, false)
 		}
+		_ = rec.Take()
 		m, target, body := mkReq(v)
 		var code int
 		func() {
@@ -156,7 +171,7 @@ func httpRunner(mkReq func(v string) (method, target, body string)) sqlRun {
 			}()
 			req := httptest.NewRequest(m, target, strings.NewReader(body)).WithContext(engineh.QuietCtx())
 			w := httptest.NewRecorder()
-			newRouter(b, false).ServeHTTP(w, req)
+			router.ServeHTTP(w, req)
 			code = w.Code
 		}()
 		sqls := collect(rec)
